@@ -34,6 +34,7 @@ CONSTANTS
   TrackHb,       \* FALSE: heartbeats are abstracted away (frozen detector configs)
   DeadGrace,     \* dead_node_grace_period (ticks, even); the other detector constants are FdOps'
   PredKey, PredVal,  \* extra liveness predicate kv[PredKey] = PredVal visible; PredKey = "" -> none
+  ConvRounds,    \* fair rounds granted for convergence (C01_Converges)
   Enable         \* set of enabled action families: "api","ttl","gc","hb","live","catchup","lose","dup"
 
 VARIABLES st, net, clock, ledger, mid, panic, hist
@@ -627,6 +628,74 @@ C16_Reject ==
         LET n == LastAct.n IN
         /\ LastAct.out.t = "Bad"
         /\ st'[n] = BumpHb(st[n], n)) ]_<<vars, hist>>
+
+-------------------------------------------------------------------------------
+\* C01 -- convergence.  A complete loss-free handshake a -> b as a FUNCTION on global states, built
+\* from the same operators as the actions (SYN by a, SYN-ACK by b, ACK by a, applied by b).
+\* choice selects one admissible delta when the budget is finite (CHOOSE: any fixed admissible order).
+PickDelta(ns, dig, sched) == CHOOSE d \in Deltas(ns, dig, sched) : TRUE
+
+HandshakeFn(g, a, b, now) ==
+  \* g : Node -> node record (like st); returns the global state after the handshake
+  LET synDigest == DigestFor(g[a], now)
+      b0 == BumpHb(g[b], b)
+      b1 == ReportDigest(b0, b, synDigest, now)
+      d1 == PickDelta(b1.ns, synDigest, SchedOf(b1, now))
+      ackDigest == DigestFor(b1, now)
+      a0 == BumpHb(g[a], a)
+      a1 == ReportDigest(a0, a, ackDigest, now)
+      ra == ProcessDelta(a1, d1, now)
+      d2 == PickDelta(ra.s.ns, ackDigest, SchedOf(ra.s, now))
+      b2 == BumpHb(b1, b)
+      rb == ProcessDelta(b2, d2, now)
+  IN [g EXCEPT ![a] = ra.s, ![b] = rb.s]
+
+\* data held by s about x that r could receive: x advertised by s (not scheduled for deletion at s)
+\* and newer than r's copy (r learns x's existence from the digest exchange unless it remembers
+\* having removed it)
+\* scheduled-for-deletion set of a node record: the logged one when the record comes from a trace
+SchedOfG(rec, now) == IF "sched" \in DOMAIN rec THEN rec.sched ELSE SchedOf(rec, now)
+Deliverable(g, s, r, now) ==
+  \E x \in (DOMAIN g[s].ns) \ SchedOfG(g[s], now) :
+     /\ x \notin DOMAIN g[r].gcd
+     /\ g[s].ns[x].max > (IF x \in DOMAIN g[r].ns THEN g[r].ns[x].max ELSE 0)
+\* some copy at a or b strictly advanced its (GC watermark, max version)
+Advanced(g, g2, n) ==
+  \E x \in DOMAIN g2[n].ns :
+     LET c2 == g2[n].ns[x]
+         c1 == IF x \in DOMAIN g[n].ns THEN g[n].ns[x] ELSE NewCopy
+     IN c2.gc > c1.gc \/ (c2.gc = c1.gc /\ c2.max > c1.max)
+\* known finding KF-2: the reply's budget can be spent on a member the receiver omitted from its
+\* digest because it has that member scheduled for deletion (the sender then treats it as never seen)
+Hogged(g, s, r, now) ==
+  \E x \in (DOMAIN g[r].ns) \cap SchedOfG(g[r], now) : x \in (DOMAIN g[s].ns) \ SchedOfG(g[s], now)
+
+ProgressAt(g, a, b, now) ==
+  LET g2 == HandshakeFn(g, a, b, now) IN
+  (Deliverable(g, a, b, now) \/ Deliverable(g, b, a, now)) =>
+     (Advanced(g, g2, a) \/ Advanced(g, g2, b) \/ Hogged(g, a, b, now) \/ Hogged(g, b, a, now))
+
+C01_Progress == \A a, b \in Node : a # b => ProgressAt(st, a, b, clock)
+
+\* bounded convergence: K fair rounds (every ordered pair once per round, canonical order) from ANY
+\* reachable state bring every advertised copy to the most advanced copy of its member
+Pairs == {p \in Node \X Node : p[1] # p[2]}
+RECURSIVE RunPairs(_, _, _)
+RunPairs(g, ps, now) ==
+  IF ps = {} THEN g
+  ELSE LET p == CHOOSE q \in ps : TRUE IN RunPairs(HandshakeFn(g, p[1], p[2], now), ps \ {p}, now)
+RECURSIVE Rounds(_, _, _)
+Rounds(g, k, now) == IF k = 0 THEN g ELSE Rounds(RunPairs(g, Pairs, now), k - 1, now)
+
+Frontier(g, x) == MaxOf({0} \cup {g[n].ns[x].max : n \in {m \in Node : x \in DOMAIN g[m].ns}})
+ConvergedG(g, now) ==
+  \A n \in Node : \A x \in (DOMAIN g[n].ns) \ SchedOfG(g[n], now) :
+     g[n].ns[x].max = Frontier(g, x)
+C01_Converges == ConvergedG(Rounds(st, ConvRounds, clock), clock)
+\* on real executions the driver appends a fair phase (complete loss-free handshakes between all
+\* pairs, ConvRounds-independent count logged) and a "FairEnd" marker
+C01_ConvergedReal ==
+  [][ Resetting \/ (LastAct.a = "FairEnd" => ConvergedG(st', clock')) ]_<<vars, hist>>
 
 -------------------------------------------------------------------------------
 \* TLC plumbing: behaviour export, one line per generated transition
